@@ -381,6 +381,15 @@ def s_mkifaceG(e, x):
     return y
 
 
+def s_twoifaces(e, x):
+    # ONE concrete type converted to TWO different interfaces, a different method called through each
+    a = e.tmp("*impA"); e.f.newimp(a, "impA")
+    p = e.tmp("putter"); e.f.toiface(p, a, "putter", "impA")
+    e.f.invoke([], p, "put", [x])
+    g = e.tmp("namer"); e.f.toiface(g, a, "namer", "impA")
+    y = e.out("S"); e.f.invoke([y], g, "get", []); return y
+
+
 def s_invoke(e, x):
     y = e.out("S"); e.f.invoke([y], x, "get", []); return y
 
@@ -942,6 +951,7 @@ STEPS = {
     "mkifaceB": ("S", "IF", "iface", mk_mkiface("impB")),
     "mkifaceV": ("S", "IF", "iface", mk_mkiface("valT")),
     "mkifaceG": ("S", "IF", "iface", s_mkifaceG),
+    "twoifaces": ("S", "S", "iface", s_twoifaces),
     "invoke": ("IF", "S", "iface", s_invoke),
     "ifaceput": ("S", "IF", "iface", s_ifaceput),
     "idcall": ("S", "S", "call", s_idcall),
